@@ -478,9 +478,40 @@ def r64(ctx, R):
     R.count('R6.4', min(n, 1) + min(n_reread, 1), 2)
 
 
+def r68(ctx, R, rule='R6.8'):
+    """The consumer object an Allocation carries is replaced only by the
+    request handlers, and only with the generation-checked consumer (R6.4).
+    The object layer never re-binds it: a consumer re-read there (e.g. in
+    the provider-conflict retry of replace_all) would make the in-transaction
+    compare-and-swap compare the database with itself."""
+    prog = ctx.prog
+    bad = []
+    n = 0
+    for f in prog.funcs:
+        mn = f.module.name
+        if not mn.startswith('placement.objects') and not mn.startswith(
+                'placement.handlers'):
+            continue
+        for x in own_nodes(f.node):
+            if isinstance(x, ast.Assign):
+                for t in x.targets:
+                    if isinstance(t, ast.Attribute) and t.attr == \
+                            'consumer' and not (isinstance(
+                                t.value, ast.Name) and t.value.id == 'self'):
+                        n += 1
+                        if not mn.startswith('placement.handlers'):
+                            bad.append('%s %s' % (f.loc(x), src(x)[:50]))
+    R.ob(rule, 'allocation.consumer:stored-by-handlers-only', not bad,
+         'outside its constructor an Allocation\'s consumer is re-bound '
+         'only in the handler layer (to the checked consumer, R6.4)',
+         bad[:3] or '%d handler sites' % n, loc=None)
+    R.count(rule, max(n, 1), 1)
+
+
 def run(ctx, R):
     c05.cas_shape(ctx, R, 'R6.1', CONS_INCR, 'consumers', 'consumer-cas')
     R.count('R6.1', 1, 1)
+    r68(ctx, R)
     r62(ctx, R)
     R.count('R6.2', 1, 1)
     r63(ctx, R)
